@@ -76,16 +76,19 @@ ConfigTokens(argv, i, cfgs) ==
   ELSE IF argv[i] = "--config" /\ i < Len(argv) THEN cfgs[argv[i + 1]] \o ConfigTokens(argv, i + 2, cfgs)
   ELSE ConfigTokens(argv, i + 1, cfgs)
 Spliced(argv, cfgs) == argv \o ConfigTokens(argv, 1, cfgs)          \* pass 1: config tokens go to the END
+\* pass 2, one step: the token group at position i is consumed; returns the next position and the updated result
+StepAt(argv, i, acc) ==
+  LET tok == argv[i] IN
+  IF tok \in Switches THEN [i |-> i + 1, acc |-> [acc EXCEPT !.switches = @ \cup {tok}]]
+  ELSE IF tok \in ValueFlags
+       THEN IF i = Len(argv) THEN [i |-> i + 1, acc |-> [acc EXCEPT !.status = "error:missing-value"]]
+            ELSE [i |-> i + 2, acc |-> IF tok = "--config" THEN acc ELSE [acc EXCEPT !.values[tok] = argv[i + 1]]]
+  ELSE IF IsFlag(tok) THEN [i |-> i + 1, acc |-> [acc EXCEPT !.status = IF i = Len(argv) THEN "error:missing-value" ELSE "error:unknown-flag"]]
+  ELSE [i |-> i + 1, acc |-> [acc EXCEPT !.files = Append(@, tok)]]
 RECURSIVE Consume(_, _, _)
 Consume(argv, i, acc) ==                                            \* pass 2: one token group per step
   IF i > Len(argv) \/ acc.status # "ok" THEN acc
-  ELSE LET tok == argv[i] IN
-       IF tok \in Switches THEN Consume(argv, i + 1, [acc EXCEPT !.switches = @ \cup {tok}])
-       ELSE IF tok \in ValueFlags
-            THEN IF i = Len(argv) THEN [acc EXCEPT !.status = "error:missing-value"]
-                 ELSE Consume(argv, i + 2, IF tok = "--config" THEN acc ELSE [acc EXCEPT !.values[tok] = argv[i + 1]])
-       ELSE IF IsFlag(tok) THEN (IF i = Len(argv) THEN [acc EXCEPT !.status = "error:missing-value"] ELSE [acc EXCEPT !.status = "error:unknown-flag"])
-       ELSE Consume(argv, i + 1, [acc EXCEPT !.files = Append(@, tok)])
+  ELSE LET st == StepAt(argv, i, acc) IN Consume(argv, st.i, st.acc)
 Loop(argv, cfgs) == Consume(Spliced(argv, cfgs), 1, EmptyParse)
 
 \* flatten a sequence of groups into tokens
